@@ -17,6 +17,7 @@ pub mod c12;
 pub mod c13;
 pub mod c14;
 pub mod c16;
+pub mod c17;
 pub mod c19;
 pub mod c20;
 pub mod c15;
@@ -48,6 +49,7 @@ pub fn meta(id: &str) -> Option<Meta> {
         "C14" => c14::meta(),
         "C15" => c15::meta(),
         "C16" => c16::meta(),
+        "C17" => c17::meta(),
         "C19" => c19::meta(),
         "C20" => c20::meta(),
         _ => return None,
@@ -82,6 +84,7 @@ pub fn run_worker(id: &str, ctx: &Ctx, rep: &mut Report) {
         "C14" => c14::run(ctx, rep),
         "C15" => c15::run(ctx, rep),
         "C16" => c16::run(ctx, rep),
+        "C17" => c17::run(ctx, rep),
         "C19" => c19::run(ctx, rep),
         "C20" => c20::run(ctx, rep),
         _ => rep.machinery(format!("no engine for {id}")),
@@ -116,6 +119,7 @@ pub fn replay(id: &str, case: &serde_json::Value) -> Result<Option<String>, Stri
         "C13" => c13::replay(case),
         "C14" => c14::replay(case),
         "C16" => c16::replay(case),
+        "C17" => c17::replay(case),
         "C19" => c19::replay(case),
         "C20" => c20::replay(case),
         _ => Err(format!("engine {id} has no single-case replay; rerun the check")),
